@@ -45,14 +45,16 @@ Definition qmax1 (c : Q) : Q := if Qle_bool c 1 then 1 else c.
 Definition pad (c h : Q) : Q := 100 * qmax1 c * h.
 
 (* approxBoundFootprint(centerZ, height): returns the slab handed out and the new cache *)
-Definition approx_with (build_h : Q -> Q -> Q) (st : option cache) (c h : Q) : slab * option cache :=
+Definition approx_with (padf build_h : Q -> Q -> Q) (st : option cache) (c h : Q) : slab * option cache :=
   match st with
   | Some k => if covers_strict (claimed k) c h then (built k, st)
-              else let k' := Cache (Slab c (pad c h)) (Slab c (build_h c h)) in (built k', Some k')
-  | None => let k' := Cache (Slab c (pad c h)) (Slab c (build_h c h)) in (built k', Some k')
+              else let k' := Cache (Slab c (padf c h)) (Slab c (build_h c h)) in (built k', Some k')
+  | None => let k' := Cache (Slab c (padf c h)) (Slab c (build_h c h)) in (built k', Some k')
   end.
-Definition approx := approx_with pad.                       (* the code: boundFootprint(centerZ, padded_height) *)
-Definition approx_seeded := approx_with (fun _ h => h).     (* boundFootprint(centerZ, height), cache says padded *)
+Definition approx := approx_with pad pad.                       (* the code: boundFootprint(centerZ, padded_height) *)
+Definition pad_flat (c h : Q) : Q := 100 * h.                   (* branch fix-C04-footprint-slab-padding (finding C04-F2) *)
+Definition approx_flat := approx_with pad_flat pad_flat.
+Definition approx_seeded := approx_with pad (fun _ h => h).     (* boundFootprint(centerZ, height), cache says padded *)
 
 Fixpoint run_requests (f : option cache -> Q -> Q -> slab * option cache) (st : option cache) (reqs : list (Q * Q))
   : list slab :=
@@ -151,18 +153,23 @@ Proof.
   assert (0 <= (qmax1 c - 1) * h) by (apply Qmult_le_0_compat; lra). nra.
 Qed.
 
-Lemma fresh_covers : forall c h, 0 <= h -> slab_covers (Slab c (pad c h)) c h.
+Lemma pad_flat_ge : forall c h, 0 <= h -> h <= pad_flat c h.
+Proof. intros c h Hh. unfold pad_flat. lra. Qed.
+
+Definition pad_ok (padf : Q -> Q -> Q) : Prop := forall c h, 0 <= h -> h <= padf c h.
+
+Lemma fresh_covers : forall padf c h, pad_ok padf -> 0 <= h -> slab_covers (Slab c (padf c h)) c h.
 Proof.
-  intros c h Hh. pose proof (pad_ge c h Hh). unfold slab_covers, half. simpl. split; lra.
+  intros padf c h P Hh. pose proof (P c h Hh). unfold slab_covers, half. simpl. split; lra.
 Qed.
 
 Lemma slab_covers_compat : forall s s' c h, s_c s == s_c s' -> s_h s == s_h s' -> slab_covers s c h -> slab_covers s' c h.
 Proof. intros s s' c h E1 E2 [A B]. unfold slab_covers, half in *. split; lra. Qed.
 
-Lemma approx_step : forall st c h, 0 <= h -> cache_ok st ->
-  slab_covers (fst (approx st c h)) c h /\ cache_ok (snd (approx st c h)).
+Lemma approx_step : forall padf st c h, pad_ok padf -> 0 <= h -> cache_ok st ->
+  slab_covers (fst (approx_with padf padf st c h)) c h /\ cache_ok (snd (approx_with padf padf st c h)).
 Proof.
-  intros st c h Hh OK. unfold approx, approx_with. destruct st as [k |].
+  intros padf st c h P Hh OK. unfold approx_with. destruct st as [k |].
   - destruct (covers_strict (claimed k) c h) eqn:E; simpl.
     + split; auto. destruct OK as [E1 E2]. apply (slab_covers_compat (claimed k)); auto.
       apply covers_strict_sound; auto.
@@ -170,15 +177,25 @@ Proof.
   - simpl. split; [apply fresh_covers; auto | split; reflexivity].
 Qed.
 
-(* over every history of requests with non-negative heights, every slab handed out covers its request *)
+(* over every history of requests with non-negative heights, every slab handed out covers its request -- for EVERY padding rule
+   that does not shrink the request, as long as the slab built is the slab recorded *)
+Theorem approx_gen_history_covers : forall padf, pad_ok padf ->
+  forall reqs st, cache_ok st -> Forall (fun r => 0 <= snd r) reqs ->
+  Forall2 (fun s r => slab_covers s (fst r) (snd r)) (run_requests (approx_with padf padf) st reqs) reqs.
+Proof.
+  intros padf P. induction reqs as [| [c h] reqs IH]; intros st OK F; simpl; [constructor |].
+  inversion F as [| ? ? Hh F']; subst. simpl in Hh.
+  destruct (approx_step padf st c h P Hh OK) as [A B].
+  destruct (approx_with padf padf st c h) as [s st'] eqn:E. simpl in *. constructor; auto.
+Qed.
+
 Theorem approx_history_covers : forall reqs st, cache_ok st -> Forall (fun r => 0 <= snd r) reqs ->
   Forall2 (fun s r => slab_covers s (fst r) (snd r)) (run_requests approx st reqs) reqs.
-Proof.
-  induction reqs as [| [c h] reqs IH]; intros st OK F; simpl; [constructor |].
-  inversion F as [| ? ? Hh F']; subst. simpl in Hh.
-  destruct (approx_step st c h Hh OK) as [A B].
-  destruct (approx st c h) as [s st'] eqn:E. simpl in *. constructor; auto.
-Qed.
+Proof. exact (approx_gen_history_covers pad pad_ge). Qed.
+
+Theorem approx_flat_history_covers : forall reqs st, cache_ok st -> Forall (fun r => 0 <= snd r) reqs ->
+  Forall2 (fun s r => slab_covers s (fst r) (snd r)) (run_requests approx_flat st reqs) reqs.
+Proof. exact (approx_gen_history_covers pad_flat pad_flat_ge). Qed.
 
 (* the seeded variant: second request far above the first one, inside the claimed range, outside the slab really built *)
 Theorem approx_seeded_refuted : exists reqs, Forall (fun r => 0 <= snd r) reqs /\
